@@ -465,9 +465,9 @@ func ErrKind(err error) (string, string) {
 type Layout struct {
 	CRLF        bool  `json:"crlf,omitempty"`
 	NoFinalEOL  bool  `json:"no_final_eol,omitempty"`
-	Wrap        []int `json:"wrap,omitempty"`    // fasta: per-record line width (cyclic)
-	Blank       []int `json:"blank,omitempty"`   // cyclic: number of blank lines inserted after line i (fasta: any line; fastq: after each record)
-	Trail       []int `json:"trail,omitempty"`   // cyclic: trailing whitespace selector per line (0 none, 1 ' ', 2 '\t', 3 "  \t")
+	Wrap        []int `json:"wrap,omitempty"`         // fasta: per-record line width (cyclic)
+	Blank       []int `json:"blank,omitempty"`        // cyclic: number of blank lines inserted after line i (fasta: any line; fastq: after each record)
+	Trail       []int `json:"trail,omitempty"`        // cyclic: trailing whitespace selector per line (0 none, 1 ' ', 2 '\t', 3 "  \t")
 	BlankIsSpcs bool  `json:"blank_spaces,omitempty"` // blank lines consist of blanks rather than being empty
 }
 
